@@ -10,6 +10,7 @@ package main
 // report of the Go runtime is a violation as well (collected by bin/check from GORACE's log).
 
 import (
+	"crypto"
 	"bytes"
 	"fmt"
 	"os"
@@ -407,7 +408,27 @@ func scenC18(g *Gen, dir string) ([]*Op, func(e *Env, i int, op *Op, obs []strin
 	r := g.r
 	create, groups := g.baseImage(4, 12)
 	ops := []*Op{keysOp(), create}
-	if r.Chance(1, 2) {
+	legacyGroup := r.Chance(1, 6)
+	var legacyV VOpts
+	if legacyGroup {
+		// another writer's legacy image: group 1 = two objects whose table order is not their ID order,
+		// with a legacy signature over the group (objects digested in table order); requests are
+		// legacy group verifications through one shared Verifier with a callback
+		u := getUniverse()
+		ent := r.Intn(len(u.PGP))
+		a, b := r.Bytes(5+r.Intn(20)), r.Bytes(5+r.Intn(20))
+		mk := func(d []byte) DI {
+			return DI{DT: 0x4007, Fail: -1, Data: DataSpec{Lit: d}, Opts: []DIOpt{{Kind: "group", N: 1}}}
+		}
+		create = &Op{Kind: "create", Backend: "buf", COpts: []CreateOpt{{Kind: "cap", I: 8}, {Kind: "det"}, {Kind: "descs", DIs: []DI{mk(a), mk(b)}}}}
+		groups = map[uint32][]uint32{1: {1, 2}}
+		ops = []*Op{keysOp(), create, {Kind: "patch", SwapSlots: []int{0, 1}},
+			{Kind: "add", T: TOpt{Kind: "det"}, DI: sigObjectDI(legacyBlob(ent, append(append([]byte{}, b...), a...), crypto.SHA256), 1, 0, 1, u.PGP[ent].PrimaryKey.Fingerprint, 0)}}
+		legacyV = trustFor([]int{ent})
+		legacyV.Legacy, legacyV.Groups = true, []uint32{1}
+		g.count("variant:legacy-group-in-another-writers-table-order")
+	}
+	if r.Chance(1, 2) && !legacyGroup {
 		gid := pick(r, sortedGroups(groups))
 		if len(groups[gid]) > 1 {
 			// relative IDs differ from absolute ones in this group afterwards
@@ -426,12 +447,15 @@ func scenC18(g *Gen, dir string) ([]*Op, func(e *Env, i int, op *Op, obs []strin
 		}
 	}
 	var keys []int
-	for n := 1 + r.Intn(2); n > 0; n-- {
+	for n := 1 + r.Intn(2); n > 0 && !legacyGroup; n-- {
 		s := g.signKeys()
 		ops = append(ops, &Op{Kind: "sign", S: s})
 		keys = append(keys, s.keyList()...)
 	}
 	v := trustFor(dedupInts(keys))
+	if legacyGroup {
+		v = legacyV
+	}
 	ops = append(ops, factsOp(), obsOp())
 	ops = append(ops, &Op{Kind: "verify", V: v})
 	last := len(ops) - 1
